@@ -235,6 +235,10 @@ class Normalizer:
         for f in list(repo.funcs.values()):
             self._replace_node(f, self.modern_syntax(f))
         for f in list(repo.funcs.values()):
+            self._replace_node(f, self.callable_aliases(f))
+        for f in list(repo.funcs.values()):
+            self._replace_node(f, self.dispatch_tables(f))
+        for f in list(repo.funcs.values()):
             self._replace_node(f, self.project_tables(f))
         for f in list(repo.funcs.values()):
             self._replace_node(f, self.canonical_syntax(f))
@@ -2261,6 +2265,9 @@ class Normalizer:
                 if isinstance(x, ast.BoolOp):
                     walk(x.values[0])
                     return False  # later operands are conditional
+                if isinstance(x, ast.IfExp):
+                    walk(x.test)
+                    return False
                 if isinstance(x, ast.Subscript):
                     return walk(x.value) and walk(x.slice)
                 if isinstance(x, ast.Slice):
@@ -2290,40 +2297,58 @@ class Normalizer:
                 hit[0] = True
             return pre, e
 
-        def pattern_test(p: ast.pattern, subj: ast.expr) -> t.Optional[t.Tuple[t.Optional[ast.expr], t.List[ast.stmt]]]:
-            """(test or None for irrefutable, bindings)"""
+        Binds = t.List[t.Tuple[str, ast.expr]]
+
+        def compile_pattern(p: ast.pattern, subj: ast.expr) -> t.Optional[t.Tuple[t.List[ast.expr], Binds]]:
+            """(conjuncts that must hold, names bound when they do) - None for patterns outside the supported set."""
             s_ = lambda: copy.deepcopy(subj)  # noqa: E731
             if isinstance(p, ast.MatchValue):
-                return ast.Compare(left=s_(), ops=[ast.Eq()], comparators=[p.value]), []
+                return [ast.Compare(left=s_(), ops=[ast.Eq()], comparators=[p.value])], []
             if isinstance(p, ast.MatchSingleton):
-                return ast.Compare(left=s_(), ops=[ast.Is()], comparators=[ast.Constant(value=p.value)]), []
+                return [ast.Compare(left=s_(), ops=[ast.Is()], comparators=[ast.Constant(value=p.value)])], []
             if isinstance(p, ast.MatchOr):
-                tests = []
+                alts = []
                 for q in p.patterns:
-                    r = pattern_test(q, subj)
-                    if r is None or r[0] is None or r[1]:
+                    r = compile_pattern(q, subj)
+                    if r is None or r[1]:
                         return None
-                    tests.append(r[0])
-                return ast.BoolOp(op=ast.Or(), values=tests), []
+                    alts.append(r[0][0] if len(r[0]) == 1 else (ast.BoolOp(op=ast.And(), values=r[0]) if r[0] else ast.Constant(value=True)))
+                return [ast.BoolOp(op=ast.Or(), values=alts)], []
             if isinstance(p, ast.MatchAs):
                 if p.pattern is None:
-                    return None if False else (None, [] if p.name is None else [ast.Assign(targets=[ast.Name(id=p.name, ctx=ast.Store())], value=s_(), lineno=0)])
-                r = pattern_test(p.pattern, subj)
+                    return [], ([] if p.name is None else [(p.name, s_())])
+                r = compile_pattern(p.pattern, subj)
                 if r is None:
                     return None
-                return r[0], r[1] + ([ast.Assign(targets=[ast.Name(id=p.name, ctx=ast.Store())], value=s_(), lineno=0)] if p.name else [])
+                return r[0], r[1] + ([(p.name, s_())] if p.name else [])
             if isinstance(p, ast.MatchClass) and not p.patterns:
-                test: ast.expr = ast.Call(func=ast.Name(id="isinstance", ctx=ast.Load()), args=[s_(), p.cls], keywords=[])
-                binds: t.List[ast.stmt] = []
-                parts = [test]
+                tests: t.List[ast.expr] = [ast.Call(func=ast.Name(id="isinstance", ctx=ast.Load()), args=[s_(), p.cls], keywords=[])]
+                binds: Binds = []
                 for name, q in zip(p.kwd_attrs, p.kwd_patterns):
-                    r = pattern_test(q, ast.Attribute(value=s_(), attr=name, ctx=ast.Load()))
+                    r = compile_pattern(q, ast.Attribute(value=s_(), attr=name, ctx=ast.Load()))
                     if r is None:
                         return None
-                    if r[0] is not None:
-                        parts.append(r[0])
+                    tests += r[0]
                     binds += r[1]
-                return (parts[0] if len(parts) == 1 else ast.BoolOp(op=ast.And(), values=parts)), binds
+                return tests, binds
+            if isinstance(p, ast.MatchSequence) and not any(isinstance(q, ast.MatchStar) for q in p.patterns):
+                tests = []
+                binds = []
+                if isinstance(subj, ast.Tuple) and len(subj.elts) == len(p.patterns):
+                    parts: t.List[ast.expr] = list(subj.elts)
+                else:
+                    # a field that holds a list / tuple: exactly n elements (the field's declared type is a sequence)
+                    if not _is_pure_path(subj):
+                        return None
+                    tests.append(ast.Compare(left=ast.Call(func=ast.Name(id="len", ctx=ast.Load()), args=[s_()], keywords=[]), ops=[ast.Eq()], comparators=[ast.Constant(value=len(p.patterns))]))
+                    parts = [ast.Subscript(value=s_(), slice=ast.Constant(value=i), ctx=ast.Load()) for i in range(len(p.patterns))]
+                for q, part in zip(p.patterns, parts):
+                    r = compile_pattern(q, part)
+                    if r is None:
+                        return None
+                    tests += r[0]
+                    binds += r[1]
+                return tests, binds
             return None
 
         def lower_match(s: ast.Match) -> t.Optional[t.List[ast.stmt]]:
@@ -2332,25 +2357,36 @@ class Normalizer:
             if isinstance(subj, ast.NamedExpr) and not any(isinstance(y, ast.NamedExpr) for y in ast.walk(subj.value)):
                 pre.append(ast.copy_location(ast.Assign(targets=[ast.Name(id=subj.target.id, ctx=ast.Store())], value=subj.value, lineno=s.lineno), s))
                 subj = ast.Name(id=subj.target.id, ctx=ast.Load())
-            if not _is_pure_path(subj):
+            if isinstance(subj, ast.Tuple) and all(_is_pure(x) for x in subj.elts):
+                pass
+            elif not (_is_pure_path(subj) or (_is_pure(subj) and isinstance(subj, (ast.Attribute, ast.Subscript)))):
                 counter[0] += 1
                 nm = f"subject__m{counter[0]}"
                 pre.append(ast.copy_location(ast.Assign(targets=[ast.Name(id=nm, ctx=ast.Store())], value=subj, lineno=s.lineno), s))
                 subj = ast.Name(id=nm, ctx=ast.Load())
             arms: t.List[t.Tuple[t.Optional[ast.expr], t.List[ast.stmt]]] = []
             for c in s.cases:
-                r = pattern_test(c.pattern, subj)
+                r = compile_pattern(c.pattern, subj)
                 if r is None:
                     return None
-                test, binds = r
-                if binds and (test is not None or c.guard is not None):
-                    # bindings must happen after the structural test and before the guard: nest
-                    if c.guard is not None:
-                        return None
-                if c.guard is not None:
-                    test = c.guard if test is None else ast.BoolOp(op=ast.And(), values=[test, c.guard])
-                arms.append((test, binds + list(c.body)))
-            # build the chain from the back
+                tests, binds = r
+                guard = c.guard
+                if guard is not None and binds:
+                    # captures are plain reads of the subject: the guard is evaluated on those reads
+                    env = {n_: e_ for n_, e_ in binds}
+
+                    class G(ast.NodeTransformer):
+                        def visit_Name(self, node: ast.Name) -> ast.AST:
+                            if isinstance(node.ctx, ast.Load) and node.id in env:
+                                return copy.deepcopy(env[node.id])
+                            return node
+
+                    guard = G().visit(copy.deepcopy(guard))
+                if guard is not None:
+                    tests = tests + [guard]
+                test = None if not tests else (tests[0] if len(tests) == 1 else ast.BoolOp(op=ast.And(), values=tests))
+                body = [ast.Assign(targets=[ast.Name(id=n_, ctx=ast.Store())], value=e_, lineno=s.lineno) for n_, e_ in binds] + list(c.body)
+                arms.append((test, body))
             tail: t.List[ast.stmt] = []
             for test, body in reversed(arms):
                 if test is None:
@@ -2382,6 +2418,33 @@ class Normalizer:
                 if isinstance(s, ast.Try):
                     for h in s.handlers:
                         h.body = block(h.body)
+                def later_walrus(test: ast.expr) -> t.Optional[int]:
+                    """index of the first operand (> 0) of a conjunction that binds a name"""
+                    if isinstance(test, ast.BoolOp) and isinstance(test.op, ast.And):
+                        for i_, v_ in enumerate(test.values):
+                            if i_ > 0 and any(isinstance(y, ast.NamedExpr) for y in ast.walk(v_)):
+                                return i_
+                    return None
+
+                def conj(vs: t.List[ast.expr]) -> ast.expr:
+                    return vs[0] if len(vs) == 1 else ast.BoolOp(op=ast.And(), values=vs)
+
+                if isinstance(s, ast.If) and later_walrus(s.test) is not None and sum(1 for _ in ast.walk(ast.Module(body=s.orelse, type_ignores=[]))) <= 60:
+                    # if A and (x := E) ...: B else: C   ->   if A: (if (x := E) ...: B else: C) else: C
+                    i_ = t.cast(int, later_walrus(s.test))
+                    vals = t.cast(ast.BoolOp, s.test).values
+                    inner = ast.copy_location(ast.If(test=conj(list(vals[i_:])), body=s.body, orelse=copy.deepcopy(s.orelse)), s)
+                    s = ast.copy_location(ast.If(test=conj(list(vals[:i_])), body=block([inner]), orelse=s.orelse), s)
+                    hit[0] = True
+                if isinstance(s, ast.While) and not s.orelse and later_walrus(s.test) is not None:
+                    # while A and (x := E) ...: B   ->   while True: if not A: break; if not ((x := E) ...): break; B
+                    i_ = t.cast(int, later_walrus(s.test))
+                    vals = t.cast(ast.BoolOp, s.test).values
+                    b1 = ast.copy_location(ast.If(test=_negate(conj(list(vals[:i_]))), body=[ast.copy_location(ast.Break(), s)], orelse=[]), s)
+                    b2 = ast.copy_location(ast.If(test=_negate(conj(list(vals[i_:]))), body=[ast.copy_location(ast.Break(), s)], orelse=[]), s)
+                    s.test = ast.copy_location(ast.Constant(value=True), s.test)
+                    s.body = block([b1, b2]) + s.body
+                    hit[0] = True
                 if isinstance(s, ast.If):
                     pre, s.test = hoist(s.test)
                     out.extend(pre)
@@ -2554,6 +2617,262 @@ class Normalizer:
         self.log.setdefault("inlined", []).append(f"{f.qual}: generator helper(s) consumed on the spot written as the loops they abbreviate")
         return new_fn
 
+    # ------------------------------------------------------------------------------------------ N34
+    def dispatch_tables(self, f: Func) -> t.Optional[FuncNode]:
+        """if S == c1: X = v1  elif S == c2: X = v2 ...  else: <raise / return>
+             ->   X = {c1: v1, c2: v2, ..}.get(S, None);  if X is None: <raise / return>
+        (S a local name or pure path, the c distinct constants, the v constants that are not None): a chain that only
+        translates a code is the table look-up the reference tree writes."""
+        hit = [False]
+
+        def chain(s: ast.If) -> t.Optional[t.Tuple[ast.expr, str, t.List[t.Tuple[ast.expr, ast.expr]], t.List[ast.stmt]]]:
+            subj: t.Optional[str] = None
+            subj_e: t.Optional[ast.expr] = None
+            target: t.Optional[str] = None
+            rows: t.List[t.Tuple[ast.expr, ast.expr]] = []
+            cur: ast.stmt = s
+            while True:
+                if not isinstance(cur, ast.If):
+                    return None
+                tst = cur.test
+                if not (isinstance(tst, ast.Compare) and len(tst.ops) == 1 and isinstance(tst.ops[0], ast.Eq) and _is_pure_path(tst.left) and isinstance(tst.comparators[0], ast.Constant)):
+                    return None
+                if subj is None:
+                    subj, subj_e = unparse(tst.left), tst.left
+                elif unparse(tst.left) != subj:
+                    return None
+                if not (len(cur.body) == 1 and isinstance(cur.body[0], ast.Assign) and len(cur.body[0].targets) == 1 and isinstance(cur.body[0].targets[0], ast.Name) and isinstance(cur.body[0].value, ast.Constant) and cur.body[0].value.value is not None):
+                    return None
+                tname = cur.body[0].targets[0].id
+                if target is None:
+                    target = tname
+                elif tname != target:
+                    return None
+                rows.append((tst.comparators[0], cur.body[0].value))
+                if len(cur.orelse) == 1 and isinstance(cur.orelse[0], ast.If):
+                    cur = cur.orelse[0]
+                    continue
+                orelse = list(cur.orelse)
+                break
+            if len(rows) < 2 or not orelse or not _terminates(orelse) or subj == target:
+                return None
+            keys = {(type(k.value), k.value) for k, _ in rows}  # type: ignore[attr-defined]
+            if len(keys) != len(rows):
+                return None
+            return t.cast(ast.expr, subj_e), t.cast(str, target), rows, orelse
+
+        def block(stmts: t.List[ast.stmt]) -> t.List[ast.stmt]:
+            out: t.List[ast.stmt] = []
+            for s in stmts:
+                if isinstance(s, (ast.FunctionDef, ast.AsyncFunctionDef, ast.ClassDef)):
+                    out.append(s)
+                    continue
+                if isinstance(s, ast.If):
+                    c = chain(s)
+                    if c is not None:
+                        subj_e, target, rows, orelse = c
+                        look = ast.Call(func=ast.Attribute(value=ast.Dict(keys=[k for k, _ in rows], values=[v for _, v in rows]), attr="get", ctx=ast.Load()), args=[copy.deepcopy(subj_e), ast.Constant(value=None)], keywords=[])
+                        out.append(ast.copy_location(ast.Assign(targets=[ast.Name(id=target, ctx=ast.Store())], value=look, lineno=s.lineno), s))
+                        out.append(ast.copy_location(ast.If(test=ast.Compare(left=ast.Name(id=target, ctx=ast.Load()), ops=[ast.Is()], comparators=[ast.Constant(value=None)]), body=block(orelse), orelse=[]), s))
+                        hit[0] = True
+                        continue
+                for fld in ("body", "orelse", "finalbody"):
+                    blk = getattr(s, fld, None)
+                    if isinstance(blk, list) and blk and isinstance(blk[0], ast.stmt):
+                        setattr(s, fld, block(blk))
+                if isinstance(s, ast.Try):
+                    for h in s.handlers:
+                        h.body = block(h.body)
+                out.append(s)
+            return out
+
+        if not any(isinstance(n, ast.If) and n.orelse for n in ast.walk(f.node)):
+            return None
+        new = copy.deepcopy(f.node)
+        new.body = block(list(new.body))
+        if not hit[0]:
+            return None
+        ast.fix_missing_locations(new)
+        return new
+
+    # ------------------------------------------------------------------------------------------ N35 / N36
+    def callable_aliases(self, f: Func) -> t.Optional[FuncNode]:
+        """N35  a name bound once to a partial application is the application it abbreviates:
+                  p = functools.partial(G, a, k=v);  p(x, y)      ->  G(a, x, y, k=v)
+                  m = operator.methodcaller("to_bytes", 4, byteorder="little");  m(x)   ->  x.to_bytes(4, byteorder="little")
+                  operator.attrgetter("a")(x) -> x.a      operator.itemgetter(i)(x) -> x[i]
+                (a local bound once, or a new module constant; the bound arguments are pure and not rebound)
+        N36  X = functools.reduce(F, IT, INIT)   ->   X = INIT; for v in IT: X = F(X, v)     (F a lambda is applied in place;
+                IT a generator expression bound once just for this becomes the loop header)"""
+        fn = f.node
+        repo = self.repo
+        hit = [False]
+        counter = [0]
+        stores: t.Dict[str, int] = {}
+        for n in ast.walk(fn):
+            if isinstance(n, ast.Name) and isinstance(n.ctx, (ast.Store, ast.Del)):
+                stores[n.id] = stores.get(n.id, 0) + 1
+            elif isinstance(n, ast.arg):
+                stores[n.arg] = stores.get(n.arg, 0) + 1
+        for n in ast.walk(fn):
+            if isinstance(n, (ast.FunctionDef, ast.AsyncFunctionDef)) and n is not fn:
+                stores[n.name] = stores.get(n.name, 0) + 1
+
+        def dotted(e: ast.expr) -> str:
+            d = repo.dotted(e, f.mod) if isinstance(e, (ast.Name, ast.Attribute)) else ""
+            return d or (unparse(e) if isinstance(e, (ast.Name, ast.Attribute)) else "")
+
+        def binding(name: str) -> t.Optional[ast.Call]:
+            """the partial / methodcaller / getter construction a name stands for"""
+            if stores.get(name, 0) == 1:
+                defs = [n for n in ast.walk(fn) if isinstance(n, ast.Assign) and len(n.targets) == 1 and isinstance(n.targets[0], ast.Name) and n.targets[0].id == name]
+                v = defs[0].value if len(defs) == 1 else None
+            elif name not in stores:
+                r = repo.resolve_name(name, f.mod)
+                if not (isinstance(r, tuple) and r[0] == "const" and len(r) == 3) or name in self.inv_consts.get(r[1].name, set()):
+                    return None
+                from .load import mutated_global
+
+                if mutated_global(r[1], name):
+                    return None
+                v = r[2]
+            else:
+                return None
+            if not isinstance(v, ast.Call) or any(isinstance(a, ast.Starred) for a in v.args) or any(k.arg is None for k in v.keywords):
+                return None
+            d = dotted(v.func)
+            if d not in ("functools.partial", "operator.methodcaller", "operator.attrgetter", "operator.itemgetter"):
+                return None
+            for a in list(v.args) + [k.value for k in v.keywords]:
+                if not _is_pure(a):
+                    return None
+                for x in ast.walk(a):
+                    if isinstance(x, ast.Name) and stores.get(x.id, 0) > 1:
+                        return None
+            return v
+
+        def apply(cons: ast.Call, call: ast.Call) -> t.Optional[ast.expr]:
+            d = dotted(cons.func)
+            if any(isinstance(a, ast.Starred) for a in call.args) and d != "functools.partial":
+                return None
+            if d == "functools.partial" and cons.args:
+                given = {k.arg for k in call.keywords}
+                return ast.Call(func=copy.deepcopy(cons.args[0]), args=[copy.deepcopy(a) for a in cons.args[1:]] + list(call.args), keywords=[copy.deepcopy(k) for k in cons.keywords if k.arg not in given] + list(call.keywords))
+            if d == "operator.methodcaller" and cons.args and isinstance(cons.args[0], ast.Constant) and isinstance(cons.args[0].value, str) and len(call.args) == 1 and not call.keywords:
+                return ast.Call(func=ast.Attribute(value=call.args[0], attr=cons.args[0].value, ctx=ast.Load()), args=[copy.deepcopy(a) for a in cons.args[1:]], keywords=[copy.deepcopy(k) for k in cons.keywords])
+            if d == "operator.attrgetter" and len(cons.args) == 1 and isinstance(cons.args[0], ast.Constant) and isinstance(cons.args[0].value, str) and "." not in cons.args[0].value and len(call.args) == 1 and not call.keywords:
+                return ast.Attribute(value=call.args[0], attr=cons.args[0].value, ctx=ast.Load())
+            if d == "operator.itemgetter" and len(cons.args) == 1 and len(call.args) == 1 and not call.keywords:
+                return ast.Subscript(value=call.args[0], slice=copy.deepcopy(cons.args[0]), ctx=ast.Load())
+            return None
+
+        class A(ast.NodeTransformer):
+            def visit_Call(self, node: ast.Call) -> ast.AST:
+                self.generic_visit(node)
+                cons: t.Optional[ast.Call] = None
+                if isinstance(node.func, ast.Name):
+                    cons = binding(node.func.id)
+                elif isinstance(node.func, ast.Call) and dotted(node.func.func) in ("operator.methodcaller", "operator.attrgetter", "operator.itemgetter", "functools.partial"):
+                    cons = node.func
+                if cons is None:
+                    return node
+                new = apply(cons, node)
+                if new is None:
+                    return node
+                hit[0] = True
+                return ast.copy_location(new, node)
+
+        new_fn = copy.deepcopy(fn)
+        A().visit(new_fn)
+
+        # ---- N36 reduce
+        def lam_apply(fx: ast.expr, acc: str, item: ast.expr) -> ast.expr:
+            if isinstance(fx, ast.Lambda) and len(fx.args.args) == 2 and not fx.args.vararg and not fx.args.kwarg and not fx.args.defaults and not fx.args.kwonlyargs:
+                a_, b_ = fx.args.args[0].arg, fx.args.args[1].arg
+                item_pure = _is_pure(item)
+                uses_b = sum(1 for x in ast.walk(fx.body) if isinstance(x, ast.Name) and x.id == b_)
+                if item_pure or uses_b <= 1:
+                    class S_(ast.NodeTransformer):
+                        def visit_Name(self, n: ast.Name) -> ast.AST:
+                            if isinstance(n.ctx, ast.Load) and n.id == a_:
+                                return ast.Name(id=acc, ctx=ast.Load())
+                            if isinstance(n.ctx, ast.Load) and n.id == b_:
+                                return copy.deepcopy(item)
+                            return n
+
+                    return t.cast(ast.expr, S_().visit(copy.deepcopy(fx.body)))
+            return ast.Call(func=copy.deepcopy(fx), args=[ast.Name(id=acc, ctx=ast.Load()), item], keywords=[])
+
+        def block(stmts: t.List[ast.stmt]) -> t.List[ast.stmt]:
+            out: t.List[ast.stmt] = []
+            for i, s in enumerate(stmts):
+                if isinstance(s, (ast.FunctionDef, ast.AsyncFunctionDef, ast.ClassDef)):
+                    out.append(s)
+                    continue
+                for fld in ("body", "orelse", "finalbody"):
+                    blk = getattr(s, fld, None)
+                    if isinstance(blk, list) and blk and isinstance(blk[0], ast.stmt):
+                        setattr(s, fld, block(blk))
+                if isinstance(s, ast.Try):
+                    for h in s.handlers:
+                        h.body = block(h.body)
+                v = getattr(s, "value", None) if isinstance(s, (ast.Assign, ast.Return)) else None
+                if isinstance(v, ast.Call) and dotted(v.func) == "functools.reduce" and len(v.args) == 3 and not v.keywords and not any(isinstance(a, ast.Starred) for a in v.args) and (isinstance(v.args[0], ast.Lambda) or _is_pure(v.args[0])) and (isinstance(s, ast.Return) or (len(s.targets) == 1 and isinstance(s.targets[0], ast.Name))):
+                    fx, it, init = v.args
+                    counter[0] += 1
+                    acc = s.targets[0].id if isinstance(s, ast.Assign) else f"acc__r{counter[0]}"
+                    if isinstance(s, ast.Assign) and any(isinstance(x, ast.Name) and x.id == acc for x in ast.walk(it)):
+                        out.append(s)
+                        continue
+                    # an iterable that is a generator expression bound once in the statement just before
+                    if isinstance(it, ast.Name) and out and isinstance(out[-1], ast.Assign) and len(out[-1].targets) == 1 and isinstance(out[-1].targets[0], ast.Name) and out[-1].targets[0].id == it.id and isinstance(out[-1].value, ast.GeneratorExp) and stores.get(it.id, 0) == 1 and sum(1 for x in ast.walk(new_fn) if isinstance(x, ast.Name) and x.id == it.id and isinstance(x.ctx, ast.Load)) == 1:
+                        it = t.cast(ast.expr, out.pop().value)
+                    item_name = f"item__r{counter[0]}"
+                    loop: ast.stmt
+                    if isinstance(it, ast.GeneratorExp) and len(it.generators) == 1 and not it.generators[0].is_async:
+                        g = it.generators[0]
+                        step: t.List[ast.stmt] = [ast.Assign(targets=[ast.Name(id=acc, ctx=ast.Store())], value=lam_apply(fx, acc, it.elt), lineno=s.lineno)]
+                        for c in reversed(g.ifs):
+                            step = [ast.If(test=c, body=step, orelse=[])]
+                        loop = ast.For(target=g.target, iter=g.iter, body=step, orelse=[], lineno=s.lineno)
+                    else:
+                        loop = ast.For(target=ast.Name(id=item_name, ctx=ast.Store()), iter=it, body=[ast.Assign(targets=[ast.Name(id=acc, ctx=ast.Store())], value=lam_apply(fx, acc, ast.Name(id=item_name, ctx=ast.Load())), lineno=s.lineno)], orelse=[], lineno=s.lineno)
+                    out.append(ast.copy_location(ast.Assign(targets=[ast.Name(id=acc, ctx=ast.Store())], value=init, lineno=s.lineno), s))
+                    out.append(ast.copy_location(loop, s))
+                    if isinstance(s, ast.Return):
+                        out.append(ast.copy_location(ast.Return(value=ast.Name(id=acc, ctx=ast.Load())), s))
+                    hit[0] = True
+                    continue
+                out.append(s)
+            return out
+
+        new_fn.body = block(list(new_fn.body))
+        if not hit[0]:
+            return None
+        # bindings of partial applications that are no longer read, and `x = x` left by reduce(.., x) into x, disappear
+        loaded = {x.id for x in ast.walk(new_fn) if isinstance(x, ast.Name) and isinstance(x.ctx, ast.Load)}
+
+        def sweep(stmts: t.List[ast.stmt]) -> t.List[ast.stmt]:
+            out: t.List[ast.stmt] = []
+            for s in stmts:
+                if isinstance(s, ast.Assign) and len(s.targets) == 1 and isinstance(s.targets[0], ast.Name):
+                    if isinstance(s.value, ast.Name) and s.value.id == s.targets[0].id:
+                        continue
+                    if s.targets[0].id not in loaded and isinstance(s.value, ast.Call) and dotted(s.value.func) in ("functools.partial", "operator.methodcaller", "operator.attrgetter", "operator.itemgetter") and binding(s.targets[0].id) is not None:
+                        continue
+                if not isinstance(s, (ast.FunctionDef, ast.AsyncFunctionDef, ast.ClassDef)):
+                    for fld in ("body", "orelse", "finalbody"):
+                        blk = getattr(s, fld, None)
+                        if isinstance(blk, list) and blk and isinstance(blk[0], ast.stmt):
+                            setattr(s, fld, sweep(blk) or [ast.Pass()])
+                out.append(s)
+            return out
+
+        new_fn.body = sweep(list(new_fn.body)) or [ast.Pass()]
+        ast.fix_missing_locations(new_fn)
+        self.log.setdefault("inlined", []).append(f"{f.qual}: partial applications / reduce written out")
+        return new_fn
+
     # ------------------------------------------------------------------------------------------ N26
     def expand_star_args(self, f: Func) -> t.Optional[FuncNode]:
         """g(a, *T, k=v)  ->  g(a, t1, t2, t3, k=v)   when T is a tuple / list display or a NamedTuple construction of the
@@ -2611,9 +2930,10 @@ class Normalizer:
             for c_ in items:
                 if not (_is_pure_path(c_) or isinstance(c_, ast.Constant) or (isinstance(c_, ast.UnaryOp) and isinstance(c_.operand, ast.Constant))):
                     return None
-                # the elements are read again at the call: their roots must still hold what they held at the construction
+                # through a binding the elements are read again at the call: their roots must still hold what they held
+                # at the construction (a display written in the call itself is evaluated right there)
                 for x in ast.walk(c_):
-                    if isinstance(x, ast.Name) and stores.get(x.id, 0) > (0 if x.id in params else 1):
+                    if depth > 0 and isinstance(x, ast.Name) and stores.get(x.id, 0) > (0 if x.id in params else 1):
                         return None
             return items
 
